@@ -27,7 +27,9 @@ def json_get(d, k, t):
 
 
 PIECES = ['alpha', 'beta', '<b>', '&amp;', '"q"', 'x', '\t', '', 'Ärger', 'a>b', '</td>', '<br>', '&', '<span title="x">',
-          "it's", '\\textbf{bold}', '\\', '\\alpha', '%c', '𝔸', '&ensp;', '<!--', '-->', ' ', 'xx  yy', ']]>', '<script>']
+          "it's", '\\textbf{bold}', '\\', '\\alpha', '%c', '𝔸', '&ensp;', '<!--', '-->', ' ', 'xx  yy', ']]>', '<script>',
+          # characters that str.splitlines() treats as line ends but that are not line ends of the file
+          '\x0c', 'a\x0bb', '\x1c', '\x85', 'c\u2028d', '\u2029', '\x1e']
 
 
 def gen_source(rnd):
